@@ -317,7 +317,15 @@ _AMEND = {
         "terminates iff the denotation does for some fuel, same observation) and never-stuck, and the whole-program "
         "optimizeTailRec theorem (C01vm_tailrec_compile_correct / C01vm_tailrec_sound: with and without the pass the code has the "
         "denotation's observation). The end-to-end link now covers all of fragment F except constant arrays/objects: also //, "
-        "foreach, label/break (label ids related by a renaming lemma) and the arithmetic/comparison operators (right operand first).",
+        "foreach, label/break (label ids related by a renaming lemma) and the arithmetic/comparison operators (right operand first). "
+        "FINAL STATE of coq/c01vm2 (fragment F2: everything in F plus constant arrays/objects, binary operators with arbitrary "
+        "operands, def with filter and $value parameters, calls, any recursion, optimizeTailRec, optimizeCodeOps): "
+        "C01vm_final_compile_correct - for the FINAL emitted code (after both optimisation passes), every program of F2, every "
+        "input, every instance of the natives and every fuel on which the fuelled denotation terminates, the VM terminates with "
+        "exactly that observation; peephole soundness for ANY code over the frame machine under three side conditions that the "
+        "compiler output is proved to satisfy; converse and never-stuck for the unoptimised code. Open: path mode, break out of a "
+        "function body, four rarely used tail positions, object construction/interpolation/slices/assignment inside the VM model "
+        "(these are decided by the reference-semantics correspondence).",
  "C02": " SECOND WAVE: abs_delpaths (mark-then-sweep with the owned-only deleteEmpty denotes value-level deletion against the original "
         "value, with frame, acyclicity and invariant), the whole compileAssign/compileModify loops lifted (C02_assign_sound, "
         "C02_modify_sound under body_ok; D5/D9 are exactly the runs outside body_ok), getpath aliasing, and slices followed by an "
